@@ -18,7 +18,14 @@ pub enum Case13 {
     /// (b) inserted content is encoded into the document encoding
     Insert { encoding: String, strings: Vec<(String, bool)>, cuts: Vec<usize> },
     /// (c) meta charset switching
-    Meta { initial: String, parts: Vec<MetaPart>, cuts: Vec<usize> },
+    Meta {
+        initial: String,
+        parts: Vec<MetaPart>,
+        cuts: Vec<usize>,
+        /// content inserted before every non-meta start tag, in place of every comment and at document end (second run)
+        #[serde(default)]
+        ins: String,
+    },
 }
 
 #[derive(Clone, Debug, Serialize, Deserialize)]
@@ -41,6 +48,8 @@ pub struct Obs {
     pub malformed: usize,
     pub long_nodes: usize,
     pub switches: usize,
+    /// insertions (second run of the meta case) made while an encoding other than the configured one was in force
+    pub ins_after_switch: usize,
 }
 
 fn is_multibyte(enc: &'static encoding_rs::Encoding) -> bool {
@@ -187,7 +196,7 @@ fn label_encoding(label: &str) -> Option<&'static encoding_rs::Encoding> {
     }
 }
 
-pub fn check_meta(initial: &str, parts: &[MetaPart], cuts: &[usize]) -> Result<Obs, (String, String)> {
+pub fn check_meta(initial: &str, parts: &[MetaPart], cuts: &[usize], ins: &str) -> Result<Obs, (String, String)> {
     let e0 = encoding_rs::Encoding::for_label(initial.as_bytes()).unwrap();
     // build the input: the encoding in force changes after the first valid meta tag
     let mut cur = e0;
@@ -197,10 +206,15 @@ pub fn check_meta(initial: &str, parts: &[MetaPart], cuts: &[usize]) -> Result<O
     let mut expect_texts: Vec<String> = vec![];
     let mut switch_at: Option<usize> = None;
     let mut new_enc = e0;
+    // second run: `ins` (Html) before every non-meta start tag, instead of every comment, and appended at document end;
+    // each insertion must be encoded in the encoding in force at that token
+    let mut exp_out: Vec<u8> = vec![];
+    let mut insertions_after_switch = 0usize;
     for p in parts {
         match p {
             MetaPart::Text(s) => {
                 let b = cur.encode(s).0.into_owned();
+                exp_out.extend(&b);
                 let d = dec(cur, &b);
                 if let Some(last) = expect_texts.last_mut() {
                     // adjacent text parts are one node only if no tag in between: parts alternate, so always push
@@ -212,10 +226,21 @@ pub fn check_meta(initial: &str, parts: &[MetaPart], cuts: &[usize]) -> Result<O
             MetaPart::Tag(t) => {
                 input.extend(t.as_bytes());
                 expect_texts.push(String::new()); // separator marker
+                if t.starts_with("<!--") {
+                    exp_out.extend(cur.encode(ins).0.iter());
+                    insertions_after_switch += usize::from(cur != e0);
+                } else if t.starts_with("</") {
+                    exp_out.extend(t.as_bytes());
+                } else {
+                    exp_out.extend(cur.encode(ins).0.iter());
+                    exp_out.extend(t.as_bytes());
+                    insertions_after_switch += usize::from(cur != e0);
+                }
             }
             MetaPart::Meta { label, form } => {
                 let tag = if *form == 0 { format!("<meta charset=\"{label}\">") } else { format!("<meta http-equiv=\"Content-Type\" content=\"text/html; charset={label}\">") };
                 input.extend(tag.as_bytes());
+                exp_out.extend(tag.as_bytes());
                 expect_texts.push(String::new());
                 if !switched {
                     if let Some(e) = label_encoding(label) {
@@ -294,14 +319,39 @@ pub fn check_meta(initial: &str, parts: &[MetaPart], cuts: &[usize]) -> Result<O
             return Err(("set-encoding-after-new-encoding-bytes".into(), ctx(format!("the sink was told about {} only after {emitted} bytes had been emitted; bytes from offset {at} on are in the new encoding", new_enc.name()))));
         }
     }
-    Ok(Obs { nontrivial: switch_at.is_some() || parts.iter().filter(|p| matches!(p, MetaPart::Meta { .. })).count() >= 2, switches: expected_switches, ..Default::default() })
+    // second run: content inserted by handlers is encoded in the encoding in force at its token (also at document end)
+    if !ins.is_empty() {
+        exp_out.extend(cur.encode(ins).0.iter());
+        insertions_after_switch += usize::from(cur != e0);
+        let c = || Content { s: ins.to_string(), html: true, streaming: ins.len() % 2 == 1 };
+        let mut cfg = Config { encoding: initial.to_string(), adjust_charset: true, ..Default::default() };
+        cfg.el.push(ElH { selector: "p, br, div, span".into(), element: true, always_el: vec![Op::Before(c())], ..Default::default() });
+        cfg.doc.push(DocH { comments: true, end: true, always_comment: vec![Op::Replace(c())], always_end: vec![Op::Append(c())], ..Default::default() });
+        let r2 = engine::run(&cfg, &input, cuts).map_err(|e| ("harness".to_string(), e))?;
+        if r2.final_res() != Res::Ok {
+            return Err(("unexpected-result".into(), ctx(format!("inserting run: {:?}", r2.final_res()))));
+        }
+        let out = r2.out();
+        if out != exp_out {
+            return Err((
+                "inserted-content-not-in-the-encoding-in-force".into(),
+                ctx(format!(
+                    "{ins:?} inserted before start tags, in place of comments and at document end must be encoded in the encoding in force at that token ({} after the switch)\n output:   {}\n expected: {}",
+                    cur.name(),
+                    show(&out),
+                    show(&exp_out)
+                )),
+            ));
+        }
+    }
+    Ok(Obs { nontrivial: switch_at.is_some() || parts.iter().filter(|p| matches!(p, MetaPart::Meta { .. })).count() >= 2, switches: expected_switches, ins_after_switch: if ins.is_empty() { 0 } else { insertions_after_switch }, ..Default::default() })
 }
 
 pub fn check(c: &Case13) -> Result<Obs, (String, String)> {
     match c {
         Case13::Read { encoding, doc_hex, doc, cuts } => check_read(encoding, &undescribe(unhex(doc_hex), doc), cuts),
         Case13::Insert { encoding, strings, cuts } => check_insert(encoding, strings, cuts),
-        Case13::Meta { initial, parts, cuts } => check_meta(initial, parts, cuts),
+        Case13::Meta { initial, parts, cuts, ins } => check_meta(initial, parts, cuts, ins),
     }
 }
 
@@ -342,7 +392,7 @@ impl Prop for C13 {
         "C13"
     }
     fn rule(&self) -> String {
-        "(a) generated documents re-encoded into each of the 36 encodings with representable characters, injected malformed / truncated sequences and text nodes of 1-8 KiB, under schedules that cut inside multi-byte characters: text (per node) and comment text read by handlers vs encoding_rs whole-buffer decode of the ground-truth bytes; (b) inserted content (before/prepend/append/after/replace/set_attribute/document end, Html and Text, streaming) with mappable and unmappable characters vs encoding_rs encode with numeric character references; (c) 0-3 meta charset declarations (valid / invalid / non-ASCII-compatible labels, charset and http-equiv forms) at varied positions: text decoded in the right encoding on each side of the first valid declaration, exactly one switch, set_encoding before any byte of the new encoding; (d) AsciiCompatibleEncoding::new over all 40 encoding_rs encodings; non-trivial: non-ASCII bytes with a cut or a 1024-byte buffer boundary inside the node, unmappable insertions, or a charset switch; distinct = hash(case)".into()
+        "(a) generated documents re-encoded into each of the 36 encodings with representable characters, injected malformed / truncated sequences and text nodes of 1-8 KiB, under schedules that cut inside multi-byte characters: text (per node) and comment text read by handlers vs encoding_rs whole-buffer decode of the ground-truth bytes; (b) inserted content (before/prepend/append/after/replace/set_attribute/document end, Html and Text, streaming) with mappable and unmappable characters vs encoding_rs encode with numeric character references; (c) 0-3 meta charset declarations (valid / invalid / non-ASCII-compatible labels, charset and http-equiv forms) at varied positions: text decoded in the right encoding on each side of the first valid declaration, exactly one switch, set_encoding before any byte of the new encoding, and (second run) content inserted before start tags, in place of comments and at document end is encoded in the encoding in force at that token; (d) AsciiCompatibleEncoding::new over all 40 encoding_rs encodings; non-trivial: non-ASCII bytes with a cut or a 1024-byte buffer boundary inside the node, unmappable insertions, or a charset switch; distinct = hash(case)".into()
     }
     fn run_shard(&self, ctx: &mut Ctx<'_>) {
         let n = ctx.budget(400_000, 24_000_000);
@@ -506,15 +556,25 @@ impl Prop for C13 {
                             seen_meta = true;
                         }
                     }
-                    Case13::Meta { initial: enc.name().into(), parts, cuts: vec![] }
+                    // inserted content: characters of either encoding's repertoire, unmappable ones, ASCII
+                    let mut ins = String::new();
+                    for _ in 0..ctx.rng.range(1, 6) {
+                        match ctx.rng.below(4) {
+                            0 if !good.is_empty() => ins.push(*ctx.rng.pick(&good)),
+                            1 if !good2.is_empty() => ins.push(*ctx.rng.pick(&good2)),
+                            2 => ins.push(*ctx.rng.pick(gen::CHAR_POOL)),
+                            _ => ins.push('i'),
+                        }
+                    }
+                    Case13::Meta { initial: enc.name().into(), parts, cuts: vec![], ins }
                 }
             };
             // schedules for meta cases are derived from the built input: use a few generic cut points
             let case = match case {
-                Case13::Meta { initial, parts, .. } => {
+                Case13::Meta { initial, parts, ins, .. } => {
                     let k = ctx.rng.below(4);
                     let cuts: Vec<usize> = (0..k).map(|_| ctx.rng.below(200)).collect::<std::collections::BTreeSet<_>>().into_iter().collect();
-                    Case13::Meta { initial, parts, cuts }
+                    Case13::Meta { initial, parts, cuts, ins }
                 }
                 c => c,
             };
@@ -525,6 +585,7 @@ impl Prop for C13 {
                     ctx.add("text_nodes_with_malformed_sequences", o.malformed as u64);
                     ctx.add("text_nodes_longer_than_decoder_buffer", o.long_nodes as u64);
                     ctx.add("charset_switches", o.switches as u64);
+                    ctx.add("insertions_encoded_after_a_charset_switch", o.ins_after_switch as u64);
                     ctx.count(match &case {
                         Case13::Read { .. } => "read_cases",
                         Case13::Insert { .. } => "insert_cases",
